@@ -234,10 +234,13 @@ with erase_type (t : ctype) : Type_ :=
   | CType t (Some (_, anns)) => MkType (erase_ty t) (erase_anns anns)
   end.
 
-(* the words a type name must not be, because the grammar reads them as something else in type position *)
-Definition type_words : list (list byte) :=
+(* the words a type name must not be, because the grammar reads them as base types in type position.  The container
+   words list / set / map are NOT among them: where no '<' follows (after an optional cpp_type clause and blank) the
+   grammar reads them as type names, and nothing that can follow a type in a document begins with '<' *)
+Definition base_words : list (list byte) :=
   [txt "string"; txt "void"; txt "byte"; txt "bool"; txt "binary"; txt "i8"; txt "i16"; txt "i32"; txt "i64";
-   txt "double"; txt "uuid"; txt "list"; txt "set"; txt "map"].
+   txt "double"; txt "uuid"].
+Definition type_words : list (list byte) := base_words ++ [txt "list"; txt "set"; txt "map"].
 
 Fixpoint bytes_eq (a b : list byte) : bool :=
   match a, b with
@@ -265,7 +268,7 @@ Fixpoint wf_ty (t : cty) : bool :=
     wf_ocpp cpp && wf_blank b1 && wf_blank b2 && wf_type inner && wf_blank b3
   | CTMap cpp b1 b2 key b3 semi b4 value b5 =>
     wf_ocpp cpp && wf_blank b1 && wf_blank b2 && wf_type key && wf_blank b3 && wf_blank b4 && wf_type value && wf_blank b5
-  | CTPath p => wf_path p && negb (bytes_in (cp_head p) type_words)
+  | CTPath p => wf_path p && negb (bytes_in (cp_head p) base_words)
   end
 with wf_type (t : ctype) : bool :=
   match t with
@@ -618,12 +621,24 @@ Definition wf_throws (t : option cthrows) : bool :=
   | Some t => wf_blank (th_b1 t) && wf_blank (th_b0 t) && negb (is_nil (th_fields t)) && wf_fields (th_fields t) && wf_blank (th_b2 t)
   | None => true
   end.
-(* a function that does not begin with the word oneway must not have a result type whose first word is oneway (it would
-   be read as the keyword) or throws (it would be read as the throws clause of the preceding function) *)
+(* the result type of a function that does not begin with the keyword oneway: if its first word is "oneway" (a path
+   such as oneway.x, or the type name oneway with an annotation list), the word must not be followed by a blank --
+   "oneway", a blank and a type is the keyword.  (A result type whose first word is "throws" needs nothing: a throws
+   clause continues with '(' and a field, a type never does.) *)
+Definition oneway_head_ok (t : ctype) : bool :=
+  match t with
+  | CType (CTPath p) an =>
+    negb (bytes_eq (cp_head p) (txt "oneway")) ||
+    match cp_tail p with
+    | (b1, _, _) :: _ => is_nil b1
+    | [] => match an with Some (bl, _) => is_nil bl | None => false end
+    end
+  | _ => true
+  end.
 Definition wf_function (f : cfunction) : bool :=
   match fn_coneway f with
   | Some b => wf_blank b && negb (is_nil b)
-  | None => head_not_in (fn_type f) [txt "oneway"; txt "throws"]
+  | None => oneway_head_ok (fn_type f)
   end &&
   wf_type (fn_type f) && wf_blank (fn_b1 f) && negb (is_nil (fn_b1 f)) && is_ident (fn_cname f) && wf_blank (fn_b2 f) &&
   wf_blank (fn_b0 f) && wf_fields (fn_args f) && wf_blank (fn_b3 f) && wf_throws (fn_cthrows f) && wf_oanns (fn_canns f) &&
